@@ -31,6 +31,12 @@ def snippets(g):
         "switch tr.T(%d) {" % a, "case 0:", "\tYIELD(tr.V(%d))" % b, "\tfallthrough", "case 1:", "\ttr.E(%d)" % c, "default:", "\ttr.E(%d)" % d, "}"]}], "roe"))
     a, b, c = f(), f(), f()
     out.append(("yield-in-if-init", [{"s": "raw", "y": True, "text": ["if YIELD(tr.V(%d)); tr.C(%d) {" % (a, b), "\ttr.E(%d)" % c, "}"]}], "roe"))
+    a, b, c, d, e = f(), f(), f(), f(), f()
+    out.append(("yield-in-else-if-init", [{"s": "raw", "y": True, "text": [
+        "if tr.C(%d) {" % a, "\ttr.E(%d)" % b, "} else if YIELD(tr.V(%d)); tr.C(%d) {" % (c, d), "\ttr.E(%d)" % e, "}"]}, {"s": "yield", "id": f()}], "roe"))
+    a, b, c, d, e, g2 = f(), f(), f(), f(), f(), f()
+    out.append(("yield-in-third-arm-init", [{"s": "raw", "y": True, "text": [
+        "if tr.C(%d) {" % a, "\tYIELD(tr.V(%d))" % b, "} else if tr.C(%d) {" % c, "\ttr.E(%d)" % d, "} else if YIELD(tr.V(%d)); tr.C(%d) {" % (e, g2), "\ttr.E(%d)" % f(), "}"]}], "roe"))
     a, b = f(), f()
     out.append(("range-pointer-to-array", [{"s": "raw", "y": True, "text": [
         "for _, v%d := range &[3]int{1, 2, 3} {" % a, "\ttr.U(%d, v%d)" % (b, a), "\tYIELD(v%d)" % a, "}"]}], "roe"))
